@@ -98,6 +98,128 @@ def harvest(module_names: list[str]) -> list[str]:
     return result
 
 
+def _numbers_of(obj, out: set, seen: set[int], depth: int = 0) -> None:
+    if id(obj) in seen or depth > 6:
+        return
+    seen.add(id(obj))
+    if isinstance(obj, bool):
+        return
+    if isinstance(obj, (int, float)):
+        if obj == obj and abs(obj) < 10**9:
+            out.add(obj)
+    elif isinstance(obj, types.CodeType):
+        for const in obj.co_consts:
+            _numbers_of(const, out, seen, depth + 1)
+    elif isinstance(obj, (tuple, list, set, frozenset)):
+        for item in obj:
+            _numbers_of(item, out, seen, depth + 1)
+    elif isinstance(obj, dict):
+        for key, value in obj.items():
+            _numbers_of(key, out, seen, depth + 1)
+            _numbers_of(value, out, seen, depth + 1)
+    elif isinstance(obj, (types.FunctionType, types.MethodType)):
+        func = getattr(obj, "__func__", obj)
+        _numbers_of(func.__code__, out, seen, depth + 1)
+        for default in (func.__defaults__ or ()):
+            _numbers_of(default, out, seen, depth + 1)
+        for default in (func.__kwdefaults__ or {}).values():
+            _numbers_of(default, out, seen, depth + 1)
+    elif isinstance(obj, (classmethod, staticmethod)):
+        _numbers_of(obj.__func__, out, seen, depth + 1)
+
+
+_NUM_CACHE: dict[tuple, list] = {}
+
+
+def numbers(module_names: list[str]) -> list:
+    """Numeric constants of the modules (limits, thresholds, timeouts, window sizes), enum member values excluded."""
+    key = tuple(module_names)
+    if key in _NUM_CACHE:
+        return _NUM_CACHE[key]
+    import enum
+
+    out: set = set()
+    seen: set[int] = set()
+    for name in module_names:
+        try:
+            module = importlib.import_module(name)
+        except Exception:  # noqa: BLE001
+            continue
+        for attr_name, value in list(vars(module).items()):
+            if attr_name.startswith("__"):
+                continue
+            owner = getattr(value, "__module__", name)
+            if isinstance(value, type):
+                if owner != name or issubclass(value, enum.Enum):
+                    continue
+                for member in vars(value).values():
+                    if isinstance(member, (int, float)) and not isinstance(member, bool):
+                        out.add(member)
+                    field_default = getattr(member, "default", None)  # dataclass fields
+                    if isinstance(field_default, (int, float)) and not isinstance(field_default, bool):
+                        out.add(field_default)
+                    _numbers_of(member, out, seen)
+            elif isinstance(value, types.FunctionType):
+                if owner == name:
+                    _numbers_of(value, out, seen)
+            elif isinstance(value, types.ModuleType) or isinstance(value, enum.Enum):
+                continue
+            else:
+                _numbers_of(value, out, seen)
+    result = sorted(out)
+    _NUM_CACHE[key] = result
+    return result
+
+
+_NUM_BASELINE: set | None = None
+
+
+def number_baseline() -> set:
+    global _NUM_BASELINE
+    if _NUM_BASELINE is None:
+        import json
+        from pathlib import Path
+
+        try:
+            _NUM_BASELINE = set(json.loads(Path(__file__).with_name("codedict_numbers_baseline.json").read_text()))
+        except Exception:  # noqa: BLE001
+            _NUM_BASELINE = set()
+    return _NUM_BASELINE
+
+
+ALL_MODULES = HANDLER_MODULES + TRANSPORT_MODULES + ["aiomysensors.persistence"]
+
+
+def thresholds(defaults: list[int], *, low: int = 2, cap: int = 6000, modules: list[str] | None = None) -> list[int]:
+    """Sizes / counts / durations to sweep: the caller's round defaults plus every numeric constant of the code under test
+    that the reference tree does not have (a limit, a window, a timeout someone added), each as n-1, n, n+1."""
+    novel = [n for n in numbers(modules or ALL_MODULES) if n not in number_baseline()]
+    out: dict[int, None] = {}
+    for n in [*novel, *defaults]:
+        for candidate in (int(n) - 1, int(n), int(n) + 1):
+            if low <= candidate <= cap:
+                out.setdefault(candidate)
+    return list(out)
+
+
+DURATIONS = [0.5, 1, 2, 5, 9, 11, 15, 20, 29, 31, 45, 59, 61, 90, 119, 121, 299, 301, 599, 601, 899, 901, 1799, 1801, 3599, 3601,
+             7201, 43201, 86399, 86401, 90000]
+
+
+def durations(cap: float = 100000) -> list[float]:
+    """Virtual-time stretches to sweep: around the usual timeout values, plus novel numeric constants of the code."""
+    out: dict[float, None] = {}
+    for n in [*(x for x in novel_numbers() if 0 < x <= cap), *DURATIONS]:
+        for candidate in ((n - 1, n + 1) if n >= 5 and n not in DURATIONS else (n,)):
+            if 0 < candidate <= cap:
+                out.setdefault(candidate)
+    return list(out)
+
+
+def novel_numbers(modules: list[str] | None = None) -> list:
+    return [n for n in numbers(modules or ALL_MODULES) if n not in number_baseline()]
+
+
 _META = re.compile(r"\\[dDwWsSbBAZ]|\(\?[:=!<P][^)]*?\)?|[\[\](){}|^$*+?.\\]")
 
 
